@@ -330,6 +330,10 @@ class Exec:
                 tag = self.st.vals[("tag", x[1])]
                 r = tag == NULLTAG
                 return r if op == "==" else z3.Not(r)
+        kinds = {x[0] if isinstance(x, tuple) else "int" for x in (a, b)}
+        if kinds == {"pp_start", "ptr_in"}:
+            self.ob("decl", False, "comparison of distinct pointer types: `start` (const uint8_t **) with a const uint8_t * (missing dereference)", 0)
+            return z3.Bool(f"distinct_ptr_cmp_{len(self.obs)}")
         raise OutsideSubset(f"pointer comparison {a!r} {op} {b!r}")
 
     def read_input(self, off, line):
